@@ -75,6 +75,8 @@ type Explorer struct {
 	nowSym       func() value
 	nowNsec      func() value
 	randFixed    bool
+	randStarted  bool
+	randNext     int
 	onLock       func(mu *value, lock bool, fr *frame)
 
 	// limits
@@ -85,27 +87,27 @@ type Explorer struct {
 	deadline   time.Time
 
 	// results
-	harness         string
-	Paths           int
-	PathKinds       map[string]int
-	Violations      []Violation
-	violSeen        map[string]int
-	KnownHits       map[string]int
-	Obligations     int
-	Discharged      int
-	Trivial         int
-	Reach           map[string]bool
-	ReachWanted     map[string]bool
-	Incomplete      []string
-	Unsupported     map[string]int
-	Samples         []PathSample
-	GoSpawned       int
-	LockFaults      []string
-	maxViolPerLabel int
+	harness          string
+	Paths            int
+	PathKinds        map[string]int
+	Violations       []Violation
+	violSeen         map[string]int
+	KnownHits        map[string]int
+	Obligations      int
+	Discharged       int
+	Trivial          int
+	Reach            map[string]bool
+	ReachWanted      map[string]bool
+	Incomplete       []string
+	Unsupported      map[string]int
+	Samples          []PathSample
+	GoSpawned        int
+	LockFaults       []string
+	maxViolPerLabel  int
 	Validation       []ValidationSample
 	wantValidation   int
 	validationStride int
-	expectPanic     map[string]bool
+	expectPanic      map[string]bool
 }
 
 // ValidationSample is a model of a completed path together with the values
@@ -413,7 +415,7 @@ func (ex *Explorer) panicIf(bad *Term, msg string) {
 // limit, so it dies with makeslice/out-of-memory).
 const allocViolation = int64(1) << 32
 
-func (ex *Explorer) allocCheck(n *Term) {
+func (ex *Explorer) allocCheck(n *Term, lenSymbolic bool) {
 	bad := mkCmp(OpSlt, mkConst(64, uint64(allocViolation)), n)
 	if bad.op == OpConst {
 		if bad.val != 0 {
@@ -423,7 +425,7 @@ func (ex *Explorer) allocCheck(n *Term) {
 	}
 	ex.obligation(fmt.Sprintf("allocation of more than 2^32 elements from client-controlled size"), mkNot(bad), "alloc", ex.where())
 	// sizes between the enumeration bound and 2^32 are not explored
-	if !ex.replayPos() {
+	if !ex.replayPos() && lenSymbolic {
 		mid := mkCmp(OpSlt, mkConst(64, uint64(ex.allocLimit)), n)
 		if res, _ := ex.solver.Check(ex.pc, mid, false); res != Unsat {
 			ex.Unsupported[fmt.Sprintf("symbolic allocation size above %d elements is not enumerated (sizes up to 2^32 are outside the claim)", ex.allocLimit)]++
@@ -613,6 +615,8 @@ func (ex *Explorer) resetPath(w workItem) {
 	ex.regions = map[string]*Term{}
 	ex.unconf = false
 	ex.envDepth = 0
+	ex.randStarted = false
+	ex.randNext = 0
 	ex.catchDepth = 0
 	ex.curWhere = ""
 	ex.interp.pathSteps = 0
